@@ -1547,6 +1547,44 @@ func (e *CoreExtension) filterReverse(value interface{}, args ...interface{}) (i
 	return nil, fmt.Errorf("cannot reverse %T", value)
 }
 
+// sliceBounds applies Twig's index rules to a sequence of count elements: a
+// negative start counts from the end, an omitted length means "to the end", a
+// negative length stops that many elements before the end, and everything out
+// of range is clamped. It returns the half-open range [from, to).
+func sliceBounds(count, start, length int, hasLength bool) (int, int) {
+	// Handle negative start index
+	if start < 0 {
+		start = count + start
+	}
+
+	// Check bounds
+	if start < 0 {
+		start = 0
+	}
+	if start > count {
+		start = count
+	}
+
+	// Calculate end index
+	end := count
+	if hasLength {
+		if length >= 0 {
+			end = start + length
+			if end > count || end < start { // the second test guards against overflow
+				end = count
+			}
+		} else {
+			// Negative length means count from the end
+			end = count + length
+			if end < start {
+				end = start
+			}
+		}
+	}
+
+	return start, end
+}
+
 func (e *CoreExtension) filterSlice(value interface{}, args ...interface{}) (interface{}, error) {
 	if value == nil {
 		return nil, nil
@@ -1563,7 +1601,8 @@ func (e *CoreExtension) filterSlice(value interface{}, args ...interface{}) (int
 	}
 
 	// Default length is to the end
-	length := -1
+	length := 0
+	hasLength := false
 	if len(args) > 1 {
 		// Make sure we can convert the second argument to an integer
 		if args[1] != nil {
@@ -1571,152 +1610,38 @@ func (e *CoreExtension) filterSlice(value interface{}, args ...interface{}) (int
 			if err != nil {
 				return nil, err
 			}
+			hasLength = true
 		}
 	}
 
 	switch v := value.(type) {
 	case string:
 		runes := []rune(v)
-		runeCount := len(runes)
-
-		// Handle negative start index
-		if start < 0 {
-			// In Twig, negative start means count from the end of the string
-			// For example, -5 means "the last 5 characters"
-			// So we convert it to a positive index directly
-			start = runeCount + start
-		}
-
-		// Check bounds
-		if start < 0 {
-			start = 0
-		}
-		if start >= runeCount {
-			return "", nil
-		}
-
-		// Calculate end index
-		end := runeCount
-		if length >= 0 {
-			end = start + length
-			if end > runeCount {
-				end = runeCount
-			}
-		} else if length < 0 {
-			// Negative length means count from the end
-			end = runeCount + length
-			if end < start {
-				end = start
-			}
-		}
-
-		return string(runes[start:end]), nil
+		from, to := sliceBounds(len(runes), start, length, hasLength)
+		return string(runes[from:to]), nil
 	case []interface{}:
-		count := len(v)
+		from, to := sliceBounds(len(v), start, length, hasLength)
 
-		// Handle negative start index
-		if start < 0 {
-			start = count + start
-		}
-
-		// Check bounds
-		if start < 0 {
-			start = 0
-		}
-		if start >= count {
-			return []interface{}{}, nil
-		}
-
-		// Calculate end index
-		end := count
-		if length >= 0 {
-			end = start + length
-			if end > count {
-				end = count
-			}
-		} else if length < 0 {
-			// Negative length means count from the end
-			end = count + length
-			if end < start {
-				end = start
-			}
-		}
-
-		return v[start:end], nil
+		// Return a copy, not a window onto the caller's slice
+		result := make([]interface{}, to-from)
+		copy(result, v[from:to])
+		return result, nil
 	}
 
 	// Try reflection for other types
 	rv := reflect.ValueOf(value)
 	switch rv.Kind() {
 	case reflect.String:
-		s := rv.String()
-		runes := []rune(s)
-		runeCount := len(runes)
-
-		// Handle negative start index
-		if start < 0 {
-			start = runeCount + start
-		}
-
-		// Check bounds
-		if start < 0 {
-			start = 0
-		}
-		if start >= runeCount {
-			return "", nil
-		}
-
-		// Calculate end index
-		end := runeCount
-		if length >= 0 {
-			end = start + length
-			if end > runeCount {
-				end = runeCount
-			}
-		} else if length < 0 {
-			// Negative length means count from the end
-			end = runeCount + length
-			if end < start {
-				end = start
-			}
-		}
-
-		return string(runes[start:end]), nil
+		runes := []rune(rv.String())
+		from, to := sliceBounds(len(runes), start, length, hasLength)
+		return string(runes[from:to]), nil
 	case reflect.Array, reflect.Slice:
-		count := rv.Len()
+		from, to := sliceBounds(rv.Len(), start, length, hasLength)
 
-		// Handle negative start index
-		if start < 0 {
-			start = count + start
-		}
-
-		// Check bounds
-		if start < 0 {
-			start = 0
-		}
-		if start >= count {
-			return reflect.MakeSlice(rv.Type(), 0, 0).Interface(), nil
-		}
-
-		// Calculate end index
-		end := count
-		if length >= 0 {
-			end = start + length
-			if end > count {
-				end = count
-			}
-		} else if length < 0 {
-			// Negative length means count from the end
-			end = count + length
-			if end < start {
-				end = start
-			}
-		}
-
-		// Create a new slice with the same type
-		result := reflect.MakeSlice(rv.Type(), end-start, end-start)
-		for i := start; i < end; i++ {
-			result.Index(i - start).Set(rv.Index(i))
+		// Create a new slice of the same element type (the value itself may be an array)
+		result := reflect.MakeSlice(reflect.SliceOf(rv.Type().Elem()), to-from, to-from)
+		for i := from; i < to; i++ {
+			result.Index(i - from).Set(rv.Index(i))
 		}
 
 		return result.Interface(), nil
